@@ -13,8 +13,8 @@ func init() {
 		c.Cov.Bound["forward+proofs Nmax"] = n1
 		BFS(c, &HistFamily{Nmax: n1, Insts: stdInsts([]uint8{0, 63}, []string{"all", "none"}), Or: HistOracle{Roots: true, Proofs: true, Prop: "C02", ProofSets: "small"}, PermLimit: 2, Collect: "C17"}, 0)
 		n2 := pick(c, 4, 5)
-		c.Cov.Bound["undo Nmax/budget"] = fmt.Sprintf("%d/2 (+roundtrip 1, verify-remember 1)", n2)
-		BFS(c, &HistFamily{Nmax: n2, Insts: stdInsts([]uint8{0, 63}, []string{"all", "none"})[1:], Or: HistOracle{Roots: true, Proofs: true, Prop: "C06", ProofSets: "small"}, UndoBud: 2, RTBud: 1, VerBud: 1, PermLimit: 2, Collect: "C17"}, 0)
+		c.Cov.Bound["undo Nmax/budget"] = fmt.Sprintf("%d/%d (+roundtrip 1)", n2, pick(c, 1, 2))
+		BFS(c, &HistFamily{Nmax: n2, Insts: stdInsts([]uint8{0, 63}, []string{"all", "none"})[1:], Or: HistOracle{Roots: true, Proofs: true, Prop: "C06", ProofSets: "small"}, UndoBud: pick(c, 1, 2), RTBud: 1, PermLimit: 2, Collect: "C17"}, 0)
 		n3 := pick(c, 4, 6)
 		c.Cov.Bound["light Nmax/undo"] = fmt.Sprintf("%d/1", n3)
 		BFS(c, &LightFamily{Nmax: n3, UndoBud: 1, Prop: "C08", Collect: "C17"}, 0)
